@@ -40,6 +40,13 @@ CLAIMED.update({
    technique=TECH + ": virtual file system with ENOENT/EIO/torn/vanish faults behind the resolver, seeded import order/form, CPython reference trace, two interleaved contexts"),
 })
 
+CLAIMED.update({
+ "C20": dict(engine="repl", design="§3 C20",
+   text="The simulator plays the terminal of the real repl.REPL through its UI seam: seeded sessions (simple and compound statements, nested blocks, decorators, multi-line brackets and triple-quoted strings with blank lines inside, backslash continuations, comments, ';'-joined statements, bare expressions incl. None) are cut into physical lines with seeded indent width and extra blank lines and fed one line per event with a blank line after each multi-line statement, with injected syntax errors (single-line and inside a block) and runtime errors (after and before a side effect). Oracles per terminal event: side-effect markers occur exactly once, in order, not before the statement's last line and not after its terminating blank line; the prompt is '... ' while a statement is incomplete and '>>> ' once everything entered has run; echo = repr(value) for non-None bare expressions and nothing otherwise; compile errors are reported; _ and the final session namespace equal those of a reference session that executes the same statements one by one via exec/eval mode.",
+   note="Trusted: the UI recorder, the reference session built from py.Compile(exec/eval)+RunCode of the same build (single mode / PRINT_EXPR are deliberately not used by the reference), traceback text on stderr is not inspected.",
+   technique=TECH + ": simulated terminal (line-at-a-time event feed with injected erroneous statements) over the REPL's UI seam, reference session, per-event timing/prompt/exactly-once invariants"),
+})
+
 NA = {
  "C01": "pure function of the program text (evaluation order/grouping): no schedule, clock, fault or environment history to simulate; needs enumeration against a reference semantics",
  "C02": "which statement raises/returns is fixed by program + inputs; the unwinding loop is deterministic and single-threaded; no simulation target",
@@ -56,7 +63,6 @@ NA = {
 PENDING = {
  "C08": "engine `isolation` not built yet",
  "C17": "engine `containers` not built yet",
- "C20": "engine `repl` not built yet",
 }
 
 def main():
